@@ -3,6 +3,7 @@ Driver.Bytes — line protocol for C07 (one reply line per request line).
 
   reset <alias|noalias> <name> <name> …     start a new history on a pool of (empty) named objects; the names
                                             listed are reported in every digest
+  save | restore                            remember the current pool / return to the remembered pool
   new a | append a <data> | setbyte a <off> <piece> | setslice a <s> <e> <data> | setword a <off> <piece>
   copy a b | slice a <s> <e> b | concretize a b <name>=<hex>,… (or -) | getbyte a <off> | getword a <off>
   unwrap a | len a
@@ -166,17 +167,25 @@ def handle (st : St) (line : String) : St × String :=
       let st' : St := ⟨m', s', st.names⟩
       (st', s!"M {showReply rm} ; {digestM st'} | S {showReply rs} ; {digestS st'}")
 
-partial def loop (h : IO.FS.Stream) (out : IO.FS.Stream) (st : St) : IO Unit := do
+partial def loop (h : IO.FS.Stream) (out : IO.FS.Stream) (st saved : St) : IO Unit := do
   let line ← h.getLine
   if line.isEmpty then return ()
-  if line.trimAscii.toString.startsWith "#" then
-    out.putStrLn line.trimAscii.toString
-    loop h out st
+  let t := line.trimAscii.toString
+  if t.startsWith "#" then
+    out.putStrLn t
+    loop h out st saved
+  else if t = "save" then          -- remember the current pool (model and spec)
+    out.putStrLn "ok"
+    loop h out st st
+  else if t = "restore" then       -- go back to the remembered pool
+    out.putStrLn "ok"
+    loop h out saved saved
   else
     let (st', r) := handle st line
     out.putStrLn r
-    loop h out st'
+    loop h out st' saved
 
 def main : IO Unit := do
   let out ← IO.getStdout
-  loop (← IO.getStdin) out (St.init true ["a", "b", "c"])
+  let st0 := St.init true ["a", "b", "c"]
+  loop (← IO.getStdin) out st0 st0
